@@ -50,9 +50,11 @@ func (msg Message) generateUnmarshalBebop(w *iohelp.ErrorWriter, settings Genera
 	exposedName := exposeName(msg.Name, settings)
 	writeLine(w, "func (bbp *%s) UnmarshalBebop(buf []byte) (err error) {", exposedName)
 	writeLine(w, "\tat := 0")
+	writeLengthCheck(w, "4", 1)
 	writeLine(w, "\t_ = iohelp.ReadUint32Bytes(buf[at:])")
 	writeLine(w, "\tbuf = buf[4:]")
 	writeLine(w, "\tfor {")
+	writeLengthCheck(w, "1", 2)
 	writeLine(w, "\t\tswitch buf[at] {")
 	for _, fd := range fields {
 		name := exposeName(fd.Name, settings)
